@@ -13,6 +13,7 @@ CONSTANTS
   MaxFail = 0
   MaxReq = 1
   MaxLook = 1
+  MaxLag = 0
   SharedTx = FALSE
   Boots = TRUE
   Profile = "poll"
